@@ -173,7 +173,8 @@ PROPS = {
         kani=[K_LIVE_VERSION],
         undecided=["file-system glue: that the files an incremental snapshot or the loader opens are the files the previous snapshot left (get_key_file_append_mode / "
                    "get_values_file_append_mode / get_key_write_mode: rename, remove, open) - trusted externals; the chain lemma C06.invariant-chains is about byte sequences",
-                   "restart of database id / conflict strategy: write_metadata_file and load_db_metadata_from_disk_or_empty are trusted externals",
+                   "that the snapshot driver calls write_metadata_file and that the file a restart opens is the file it wrote (the two functions themselves are verified: 12 bytes, "
+                   "id then strategy code, decoded back to the same id and strategy - C06.metadata-written / -loaded / -roundtrip)",
                    "get_keys_by_filter (iterator pipeline ending in a for_each that pushes into a captured vector) has a trusted specification over its filter closure's contract; "
                    "the filter of get_keys_to_update itself (`not Ok, or reclaiming`) is verified",
                    "torn or truncated files (C11): the loader is verified for sound images only",
@@ -225,7 +226,7 @@ PROPS = {
     "C10": dict(
         units=["store", "consensus", "security", "ids", "oplog", "pending", "parser", "sessions", "http", "election", "snapshot", "sync", "listing", "permissions", "replies"],
         reachable={"replies": ["get_key_value", "get_key_value_safe", "arm_get", "arm_get_safe", "arm_keys"], "permissions": ["Permission::from", "Permission::permissions_from_str", "From<char>@PermissionKind::from", "has_permission"], "listing": ["Database::list_keys", "filter_system_keys", "get_function_by_pattern", "starts_with", "ends_with", "contains", "Database::list_conflicts_keys",
-                               "Database::has_pendding_conflict", "Database::register_arbiter"], "sync": ["make_create_db_command", "get_full_sync_opps", "get_pendding_opps_since"], "snapshot": ["get_keys_to_update", "NodeDrive::storage_data_disk", "write_value", "write_key", "update_key", "write_new_key_value", "get_key_disk_size", "create_db_from_file_name", "ValueStatus::to_le_bytes"], "http": ["process_commands"], "election": ["election_eval", "start_election", "start_new_election", "election_win", "Databases::get_role", "Databases::is_eligible", "Databases::is_primary", "From<usize>@ClusterRole::from"], "store": STORE_FNS, "security": SECURITY_FNS, "pending": ["ReplicationMessage::new", "ReplicationMessage::ack", "ReplicationMessage::replicated", "ReplicationMessage::is_full_acknowledged",
+                               "Database::has_pendding_conflict", "Database::register_arbiter"], "sync": ["make_create_db_command", "get_full_sync_opps", "get_pendding_opps_since"], "snapshot": ["get_keys_to_update", "write_metadata_file", "load_db_metadata_from_disk_or_empty", "ConsensuStrategy::to_le_bytes", "From<i32>@ConsensuStrategy::from", "NodeDrive::storage_data_disk", "write_value", "write_key", "update_key", "write_new_key_value", "get_key_disk_size", "create_db_from_file_name", "ValueStatus::to_le_bytes"], "http": ["process_commands"], "election": ["election_eval", "start_election", "start_new_election", "election_win", "Databases::get_role", "Databases::is_eligible", "Databases::is_primary", "From<usize>@ClusterRole::from"], "store": STORE_FNS, "security": SECURITY_FNS, "pending": ["ReplicationMessage::new", "ReplicationMessage::ack", "ReplicationMessage::replicated", "ReplicationMessage::is_full_acknowledged",
                    "ReplicationMessage::count_replication", "ReplicationMessage::count_acknowledged", "ReplicationMessage::get_copy", "Databases::register_pending_opp",
                    "Databases::acknowledge_pending_opp", "Databases::get_pending_opp_copy"],
                    "parser": PARSER_FNS, "sessions": ["Database::inc_connections", "Database::dec_connections", "Database::connections_count", "release_previous_db",
